@@ -193,22 +193,25 @@ type NodeOpts struct {
 	PoolMin int32
 	PoolMax int32  // 0 = production range
 	Dir     string // existing data dir (restart); "" = fresh
+	// AuditFail, when set, gives the node an audit sink that fails while *AuditFail is true
+	AuditFail *atomic.Bool
 }
 
 type Node struct {
-	ID      uint64
-	C       *Cluster
-	Dir     string
-	Local   wasp.LocalState
-	State   distributed.State
-	Bcast   *memberlist.TransmitLimitedQueue
-	Log     *RecLog
-	Ack     ack.Queue
-	Writer  wasp.Writer
-	Dist    *wasp.PublishDistributor
-	PP      wasp.PacketProcessor
-	Manager wasp.Manager
-	Members wasp.NodeMemberManager
+	AuditEvents atomic.Int64 // events offered to the flaky audit sink (NodeOpts.AuditFail)
+	ID          uint64
+	C           *Cluster
+	Dir         string
+	Local       wasp.LocalState
+	State       distributed.State
+	Bcast       *memberlist.TransmitLimitedQueue
+	Log         *RecLog
+	Ack         ack.Queue
+	Writer      wasp.Writer
+	Dist        *wasp.PublishDistributor
+	PP          wasp.PacketProcessor
+	Manager     wasp.Manager
+	Members     wasp.NodeMemberManager
 
 	ctx    context.Context
 	cancel context.CancelFunc
@@ -319,7 +322,11 @@ func (c *Cluster) AddNode(o NodeOpts) (*Node, error) {
 	n.Log = &RecLog{Log: real, node: o.ID}
 	n.Bcast = NewQueue()
 	n.Local = wasp.NewState(o.ID)
-	n.State = distributed.NewState(o.ID, n.Bcast, audit.NoneRecorder())
+	var recorder audit.Recorder = audit.NoneRecorder()
+	if o.AuditFail != nil {
+		recorder = mkFlaky(audit.NoneRecorder().RecordEvent, o.AuditFail, &n.AuditEvents)
+	}
+	n.State = distributed.NewState(o.ID, n.Bcast, recorder)
 	n.Dist = &wasp.PublishDistributor{ID: o.ID, State: n.State.Subscriptions(), Storage: n.Log, Logger: zap.NewNop()}
 	n.Dist.Transport = nodeTransport{c: c, from: n}
 	n.Members = wasp.NewNodeMemberManager(o.ID, n.Log, n.State)
@@ -479,6 +486,10 @@ func (c *Cluster) LoseReplies(id uint64, n int) {
 	c.loseReply[id] = n
 	c.mu.Unlock()
 }
+
+// CancelContext cancels the node's context (what a shutdown signal does first) while the
+// clients' connections stay open.
+func (n *Node) CancelContext() { n.cancel() }
 
 func (c *Cluster) SetUnreachable(id uint64, v bool) {
 	c.mu.Lock()
